@@ -619,6 +619,23 @@ func sameValue(a, b ssa.Value) bool {
 	if a == b {
 		return true
 	}
+	// the same pure conversion of the same value, written out twice
+	if ca, isA := a.(*ssa.Call); isA {
+		if cb, isB := b.(*ssa.Call); isB {
+			ga, gb := ca.Call.StaticCallee(), cb.Call.StaticCallee()
+			if ga != nil && ga == gb && len(ca.Call.Args) == len(cb.Call.Args) {
+				switch core.FuncName(ga) {
+				case "pkg/util.BytesToString", "pkg/util.StringToBytes":
+					for i := range ca.Call.Args {
+						if !sameValue(ca.Call.Args[i], cb.Call.Args[i]) {
+							return false
+						}
+					}
+					return true
+				}
+			}
+		}
+	}
 	ua, ok1 := a.(*ssa.UnOp)
 	ub, ok2 := b.(*ssa.UnOp)
 	if ok1 && ok2 && ua.Op == token.MUL && ub.Op == token.MUL {
